@@ -110,7 +110,7 @@ def call(stream, what, case, f):
     except ImplTimeout:
         stream.violate('%s did not return within %d s' % (what, CALL_TIMEOUT_S), case, {})
         return False, None
-    except ERRS as e:
+    except Exception as e:   # any exception of the implementation on an admissible input is a violation
         stream.violate('%s raised %s: %s' % (what, type(e).__name__, str(e)[:200]), case, {})
         return False, None
     finally:
@@ -689,7 +689,7 @@ def replay(ctx, payload):
     req = detail.get('request')
     try:
         out = impl_output(ctx, case)
-    except ERRS:
+    except Exception:
         return False
     if out is None or not req:
         return None
@@ -703,18 +703,18 @@ def replay(ctx, payload):
 
 # ---------------------------------------------------------------- hardening: State, Types, Bands, Asymmetry
 
-BAND = [2.0 ** -14, 2.0 ** -15, 2.0 ** -16, 2.0 ** -17, 2.0 ** -18]     # 6.1e-5 .. 3.8e-6, exact in binary
+BAND = [2.0 ** -15, 2.0 ** -16, 2.0 ** -17, 2.0 ** -18, 2.0 ** -19]     # 3.1e-5 .. 1.9e-6, exact in binary
 
 
 def band_val(rng, cplx):
-    """a dyadic value of magnitude 1e-6 .. 1e-4 (real, purely imaginary or complex)"""
-    re = rng.choice([1, 3, -5, -1, 7]) * rng.choice(BAND)
+    """a dyadic value of magnitude 1.9e-6 .. 8.7e-5 < 1e-4 (real, purely imaginary or complex)"""
+    re = rng.choice([1, -1, 2, -2]) * rng.choice(BAND)
     if not cplx:
         return re
     kind = rng.random()
     if kind < 0.4:
         return complex(0.0, re)
-    return complex(re, rng.choice([1, -3, 5]) * rng.choice(BAND))
+    return complex(re, rng.choice([1, -1, 2]) * rng.choice(BAND))
 
 
 def soft(st, tag, f):
@@ -792,6 +792,57 @@ def sparse_spec_op(const, one, two):
     return A
 
 
+FORCED_BAND = ['diag', 'offdiag', 'coulomb', 'numexc', 'quartic-ijkl', 'quartic-ikjl', 'quartic-iljk']
+
+
+def band_tensors(rng, n, cplx, forced, st):
+    """Hermitian tensors with an O(1) background and small (4e-6 .. 6e-5) entries; `forced` names the entry class
+    that is guaranteed to be present and alone in its (anti)symmetrised combination"""
+    one, two = herm_tensors(rng, n, cplx, 0.12 if n <= 6 else 0.0)
+
+    def put2(idx, v):
+        a, b, c, d = idx
+        for z in ((a, b, c, d), (a, b, d, c), (b, a, d, c), (b, a, c, d)):
+            two[z] = 0
+            two[z[::-1]] = 0
+        two[idx] = v
+        two[idx[::-1]] = numpy.conj(v)
+
+    def put(kind):
+        if kind == 'diag':
+            one[rng.randrange(n), rng.randrange(n)] = 0
+            p = rng.randrange(n)
+            one[p, p] = band_val(rng, False)
+        elif kind == 'offdiag' or n < 3:
+            p, q = rng.sample(range(n), 2)
+            v = band_val(rng, cplx)
+            one[p, q] = v
+            one[q, p] = numpy.conj(v)
+            kind = 'offdiag'
+        elif kind == 'coulomb':
+            i3, j3 = rng.sample(range(n), 2)
+            put2(rng.choice([(i3, j3, j3, i3), (i3, j3, i3, j3)]), band_val(rng, False))
+        elif kind == 'numexc' or n < 4:
+            i3, j3, k3 = rng.sample(range(n), 3)
+            put2(rng.choice([(i3, j3, k3, i3), (j3, i3, i3, k3), (i3, j3, i3, k3)]), band_val(rng, cplx))
+            kind = 'numexc'
+        else:
+            i, j, k, l = sorted(rng.sample(range(n), 4), reverse=True)
+            idx = {'quartic-ijkl': (i, j, k, l), 'quartic-ikjl': (i, k, j, l), 'quartic-iljk': (i, l, j, k)}[kind]
+            put2(idx, band_val(rng, cplx))
+        st.count('band-entry:' + kind)
+    put(forced)
+    for _ in range(rng.randint(0, 2)):
+        put(rng.choice(FORCED_BAND))
+    # keep the diagonal one-body entries Hermitian (real) after the random zeroing above
+    for p in range(n):
+        one[p, p] = one[p, p].real
+    for p in range(n):
+        for q in range(p + 1, n):
+            one[q, p] = numpy.conj(one[p, q])
+    return one, two
+
+
 SCALARS = [('int', 2), ('int', -3), ('float', 1.5), ('complex', 0.5 - 2j), ('complex-imag', 0.75j), ('bool', True),
            ('numpy.float64', numpy.float64(-0.75)), ('numpy.complex128', numpy.complex128(1 + 0.5j)),
            ('numpy.float32', numpy.float32(1.5)), ('numpy.complex64', numpy.complex64(0.5 - 2j)),
@@ -847,7 +898,7 @@ def stream_hardening(ctx):
                 '(T) tensors as float64 / complex128 / complex64 / float32 / int64 / int32 / Fortran-ordered arrays, '
                 'helper coefficients as Python int / float / complex / bool and numpy scalar types, numpy scalars placed '
                 'into .terms (a type this tree rejects is excluded and counted, never an alarm); (B) dyadic entries of '
-                'magnitude 4e-6 .. 6e-5 next to O(1) ones in FermionOperators, InteractionOperators and '
+                'magnitude 2e-6 .. 9e-5 next to O(1) ones in FermionOperators, InteractionOperators and '
                 'DiagonalCoulombHamiltonians, sizes 9 .. 20, indices >= 257; (A) complex constants, purely imaginary '
                 'entries, non-Hermitian tensors (Model comparison only), both operand orders.  Everything is compared '
                 'exactly with the Model and, where the input is admissible, with the Spec oracle; '
@@ -1052,37 +1103,15 @@ def stream_hardening(ctx):
     b.flush()
 
     # ---- (B) small entries next to O(1) ones: InteractionOperator and FermionOperator; sizes 9..20; indices >= 257
-    for rep in range(4 * reps):
-        n = rng.choice([3, 4, 4, 5, 6] + ([9] if rep % 4 == 3 else []))
+    for rep in range(len(FORCED_BAND) * reps):
+        forced = FORCED_BAND[rep % len(FORCED_BAND)]
+        n = rng.choice([4, 4, 5, 6] + ([9] if rep % 7 == 3 else []))
         cplx = rng.random() < 0.6
-        one, two = herm_tensors(rng, n, cplx, 0.15 if n <= 6 else 0.0)
-        for _ in range(rng.randint(1, 3)):
-            p, q = rng.sample(range(n), 2)
-            v = band_val(rng, cplx)
-            one[p, q] = v
-            one[q, p] = numpy.conj(v)
-        if rng.random() < 0.5:
-            p = rng.randrange(n)
-            one[p, p] = band_val(rng, False)
-        for _ in range(rng.randint(1, 3)):
-            kind = rng.choice(['quartic', 'number-excitation', 'coulomb'])
-            if kind == 'quartic' and n >= 4:
-                idx = tuple(rng.sample(range(n), 4))
-            elif kind == 'number-excitation' and n >= 3:
-                i3, j3, k3 = rng.sample(range(n), 3)
-                idx = rng.choice([(i3, j3, k3, i3), (j3, i3, i3, k3), (i3, j3, i3, k3)])
-            else:
-                i3, j3 = rng.sample(range(n), 2)
-                idx = rng.choice([(i3, j3, j3, i3), (i3, j3, i3, j3)])
-            partner = idx[::-1]
-            v = band_val(rng, cplx and idx != partner)
-            two[idx] = v
-            two[partner] = numpy.conj(v)
-            st.count('band-entry:' + kind)
+        one, two = band_tensors(rng, n, cplx, forced, st)
         iop = of.InteractionOperator(rng.choice([0.0, 1.5]), one, two)
         j1, j2, jc = flat(one), flat(two), to_gq(iop.constant)
         case = {'fn': 'jordan_wigner', 'interaction_operator_sparse': {'n': n, 'terms': sparse_spec_op(iop.constant, one, two)},
-                'check': 'band 4e-6..6e-5 next to O(1)'}
+                'check': 'band 2e-6..9e-5 next to O(1)'}
         st.case(case)
         ok, Q = call(st, 'jordan_wigner(InteractionOperator with small entries)', case, lambda: jw(iop))
         if ok:
